@@ -339,7 +339,7 @@ PAD_OBS = {"xy": "pad", "pipe_fp": "pad",
            "edelta": False, "hash": "pad", "cid": "pad"}
 
 
-def validate(ctx, traces, hashobs, label, batch=400):
+def validate(ctx, traces, hashobs, label, batch=400, sentinels=None):
     """CurveTrace.tla over the traces.  Returns
     ({trace index: {event index: [clauses]}}, hash pair violations,
     tlc states)."""
@@ -354,7 +354,8 @@ def validate(ctx, traces, hashobs, label, batch=400):
         if not chunk:
             break
         path = ctx.scratch / f"curve_batch_{label}_{b0}.json"
-        sent = [t["sentinel"] for t in traces if "sentinel" in t] \
+        sent = (list(sentinels) if sentinels is not None else
+                [t["sentinel"] for t in traces if "sentinel" in t]) \
             if b0 == 0 else []
         fields = sorted({k for sdict in sent for k in sdict}) or ["pad"]
         sent = [{k: sdict.get(k, "missing") for k in fields}
